@@ -1,4 +1,5 @@
 //! C19 harness: drives the real `RuntimeMemoryImage` queries.
+use apint::Width;
 use cwe_checker_lib::intermediate_representation::*;
 use cwe_checker_lib::utils::binary::MemorySegment;
 use verif_harness::*;
@@ -18,7 +19,7 @@ fn gen_layout(rng: &mut Rng, big: bool) -> Layout {
     };
     let mut segs = Vec::new();
     for _ in 0..n {
-        let maxlen = if rng.chance(1, 4) { 24 } else { 9 };
+        let maxlen = if rng.chance(1, 3) { 40 } else { 9 };
         let len = 1 + rng.below(maxlen) as usize;
         let mut bytes = Vec::with_capacity(len);
         for _ in 0..len {
@@ -85,7 +86,17 @@ fn eval(img: &RuntimeMemoryImage, q: &str, a: u64, n: u64) -> String {
     let q2 = q.to_string();
     let r = catch(move || match q2.as_str() {
         "read" => match img.read(&bv(a, 8), ByteSize::new(n)) {
-            Ok(Some(v)) => format!("some:{}", v.try_to_u64().unwrap()),
+            // full-width decimal value (reads wider than 8 bytes are legal: SSE / x87 constants)
+            Ok(Some(v)) => {
+                let w = u64::from(ByteSize::from(v.width()));
+                if w != n {
+                    format!("some-wrong-width:{}", w)
+                } else if w <= 16 {
+                    format!("some:{}", v.into_resize_unsigned(ByteSize::new(16)).try_to_u128().unwrap())
+                } else {
+                    format!("some-wide:{:?}", v)
+                }
+            }
             Ok(None) => "none".into(),
             Err(_) => "err".into(),
         },
@@ -267,7 +278,7 @@ fn main() {
     let mut out = Out::new(
         &args,
         "random layouts of 1-4 pairwise disjoint segments (half of the neighbours adjacent), every address in [base-2,end+2] \
-         of every segment, sizes 1/2/4/8, both byte orders; non-trivial = query answered with a value/flag (not err/false); \
+         of every segment, sizes 1/2/3/4/8/10/16, both byte orders; non-trivial = query answered with a value/flag (not err/false); \
          distinct by (query, layout, offset, address, size)",
     );
     if let Some(lines) = args.replay_lines() {
@@ -322,6 +333,10 @@ fn main() {
             let hi = (s.base_address + off + s.bytes.len() as u64).saturating_add(2);
             let mut a = lo;
             loop {
+                // odd and wide sizes (3, 10, 16 bytes) as well: the value is assembled byte by byte for ANY size
+                for n in [3u64, 10, 16] {
+                    emit(&mut out, &l, off, "read", a, n);
+                }
                 for n in [1u64, 2, 4, 8] {
                     emit(&mut out, &l, off, "read", a, n);
                     // the constant itself has n bytes, so only addresses representable in n bytes can be asked
